@@ -4498,8 +4498,16 @@ class NetCDFWrite(IOWrite):
         """
         if fields and mode == "w":
             filename = os.path.abspath(filename)
+            realname = os.path.realpath(filename)
             for f in fields:
-                if filename in self.implementation.get_original_filenames(f):
+                # The files from which the construct was read, and the
+                # files that are still needed by any of its data
+                # (which may have been set from another construct).
+                filenames = set(self.implementation.get_original_filenames(f))
+                filenames.update(self.implementation.get_filenames(f))
+                if filename in filenames or realname in [
+                    os.path.realpath(x) for x in filenames
+                ]:
                     raise ValueError(
                         "Can't write with mode 'w' to a file that contains "
                         f"data that needs to be read: {f!r} uses {filename}"
